@@ -126,6 +126,46 @@ pub fn c08_native<G: AffineRepr + 'static>(seed: u64, maxlen: usize) -> Checks {
                 }
             }
         }
+        // list lengths around the guard of the shift `1 << |L|`
+        if g <= 1 {
+            for big in [31usize, 32, 33, 63, 64, 65] {
+                for (bl, br) in [(big, big), (big, 0), (0, big)] {
+                    let l: Vec<G> = (0..bl).map(|_| pts[0]).collect();
+                    let r: Vec<G> = (0..br).map(|_| pts[1]).collect();
+                    let hostile = R1CSProof::verif_from_parts(pts, scs, InnerProductProof::verif_from_parts(l, r, a, b));
+                    total += 2;
+                    rewind_for_verifier(&shr);
+                    let r1 = catch(|| {
+                        let mut vt = new_verifier_transcript(&shape);
+                        build_verifier(&shape, &shr, &mut vt).verify(&hostile, &pc, &bp).is_ok()
+                    });
+                    rewind_for_verifier(&shr);
+                    let r2 = catch(|| {
+                        let mut vt = new_verifier_transcript(&shape);
+                        let v = build_verifier(&shape, &shr, &mut vt);
+                        let mut wr = rand_chacha::ChaChaRng::seed_from_u64(seed);
+                        batch_verify(&mut wr, vec![(v, &hostile)], &pc, &bp).is_ok()
+                    });
+                    for (which, r) in [("verify", &r1), ("batch_verify", &r2)] {
+                        match r {
+                            Err(e) => {
+                                bad += 1;
+                                if first.is_empty() {
+                                    first = format!("{} panicked for {} gates, |L|={}, |R|={}: {}", which, g, bl, br, e);
+                                }
+                            }
+                            Ok(true) => {
+                                bad += 1;
+                                if first.is_empty() {
+                                    first = format!("{} ACCEPTED a proof with |L|={}, |R|={} for {} gates", which, bl, br, g);
+                                }
+                            }
+                            _ => {}
+                        }
+                    }
+                }
+            }
+        }
         // byte strings: every strict prefix, inflated length prefixes, random bytes
         let bytes = proof.to_bytes().unwrap();
         let psz = pts[0].serialized_size(ark_serialize::Compress::Yes);
@@ -230,6 +270,21 @@ pub fn c11_native<G: AffineRepr + 'static>(seed: u64, small_order: Option<Vec<G>
             }
         }
         out.push((format!("{}: the modulus itself as a scalar encoding is rejected at all 5 scalar positions", shape.name), accepted == 0));
+        // non-canonical encodings that only set spare high bits of the last byte
+        let spare = 8 * ssz as u32 - G::ScalarField::MODULUS_BIT_SIZE;
+        if spare > 0 {
+            let mut acc = 0;
+            for off in scalar_offsets {
+                for bit in 0..spare {
+                    let mut b2 = bytes.clone();
+                    b2[off + ssz - 1] |= 0x80u8 >> bit;
+                    if !matches!(R1CSProof::<G>::from_bytes(&b2), Err(R1CSError::FormatError)) {
+                        acc += 1;
+                    }
+                }
+            }
+            out.push((format!("{}: a scalar encoding with a spare high bit set ({} spare bits) is rejected with FormatError at all 5 scalar positions", shape.name, spare), acc == 0));
+        }
         // point positions
         let mut point_offsets: Vec<usize> = (0..11).map(|i| i * psz).collect();
         let off_l = 11 * psz + 3 * ssz + 8;
@@ -253,9 +308,9 @@ pub fn c11_native<G: AffineRepr + 'static>(seed: u64, small_order: Option<Vec<G>
             let acc = point_offsets.iter().filter(|off| {
                 let mut b2 = bytes.clone();
                 b2[**off..**off + psz].copy_from_slice(&inv);
-                R1CSProof::<G>::from_bytes(&b2).is_ok()
+                !matches!(R1CSProof::<G>::from_bytes(&b2), Err(R1CSError::FormatError))
             }).count();
-            out.push((format!("{}: an encoding that is not a valid curve point is rejected at all {} point positions", shape.name, point_offsets.len()), acc == 0));
+            out.push((format!("{}: an encoding that is not a valid curve point is rejected with FormatError at all {} point positions", shape.name, point_offsets.len()), acc == 0));
         }
         if let Some(torsion) = &small_order {
             let mut acc = 0;
@@ -269,13 +324,13 @@ pub fn c11_native<G: AffineRepr + 'static>(seed: u64, small_order: Option<Vec<G>
                         let mut b2 = bytes.clone();
                         b2[*off..*off + psz].copy_from_slice(&enc);
                         tried += 1;
-                        if R1CSProof::<G>::from_bytes(&b2).is_ok() {
+                        if !matches!(R1CSProof::<G>::from_bytes(&b2), Err(R1CSError::FormatError)) {
                             acc += 1;
                         }
                     }
                 }
             }
-            out.push((format!("{}: a point with a small-order component (outside the prime-order subgroup) is rejected at every point position ({} encodings tried)", shape.name, tried), acc == 0 && tried > 0));
+            out.push((format!("{}: a point with a small-order component (outside the prime-order subgroup) is rejected with FormatError at every point position ({} encodings tried)", shape.name, tried), acc == 0 && tried > 0));
             // small-order components on two positions that cancel in the sum of all points
             let mut acc2 = 0;
             let mut tried2 = 0;
@@ -359,6 +414,46 @@ pub fn c12_native<G: AffineRepr + 'static>(maxcap: usize) -> Checks {
         }
     }
     out.push((format!("aggregated views G(n,m), H(n,m) for n in 0..={}, m in 0..=3 list the first n generators of the first m parties in party-major order", maxcap), views_ok));
+    // the same views through positional iterator adaptors (nth / skip / step_by / last / count), also on a
+    // partially consumed iterator
+    let mut adaptors_ok = true;
+    let mut first_bad = String::new();
+    for n in 0..=maxcap {
+        for m in 0..=3usize {
+            let want: Vec<G> = (0..m).flat_map(|j| gens.share(j).verif_G(n)).collect();
+            for pre in 0..=want.len().min(3) {
+                for k in 0..=want.len() {
+                    let r = catch(|| {
+                        let mut it = gens.G(n, m);
+                        for _ in 0..pre {
+                            it.next();
+                        }
+                        let a = it.nth(k).cloned();
+                        let rest: Vec<G> = it.cloned().collect();
+                        (a, rest)
+                    });
+                    let exp_a = want.get(pre + k).cloned();
+                    let exp_rest: Vec<G> = want.iter().skip(pre + k + 1).cloned().collect();
+                    if r != Ok((exp_a, exp_rest)) {
+                        adaptors_ok = false;
+                        if first_bad.is_empty() {
+                            first_bad = format!("G({},{}): {} x next() then nth({})", n, m, pre, k);
+                        }
+                    }
+                }
+            }
+            let sk = catch(|| gens.H(n, m).skip(2).step_by(2).cloned().collect::<Vec<G>>());
+            let want_h: Vec<G> = (0..m).flat_map(|j| gens.share(j).verif_H(n)).collect();
+            let exp: Vec<G> = want_h.iter().skip(2).step_by(2).cloned().collect();
+            if sk != Ok(exp) || catch(|| gens.H(n, m).count()) != Ok(want_h.len()) || catch(|| gens.H(n, m).last().cloned()) != Ok(want_h.last().cloned()) {
+                adaptors_ok = false;
+                if first_bad.is_empty() {
+                    first_bad = format!("H({},{}): skip/step_by/count/last", n, m);
+                }
+            }
+        }
+    }
+    out.push((format!("the aggregated views behave the same through nth / skip / step_by / count / last, also when partially consumed {}", first_bad), adaptors_ok));
     // distinctness, non-identity, pinned derivation (parties 0..2 and 255..257)
     let pc = PedersenGens::<G>::default();
     let big = BulletproofGens::<G>::new(4, 258);
